@@ -42,6 +42,7 @@ func c15(c *Ctx) {
 	c15users(c)
 	c15pureHash(c)
 	c15injectiveNames(c)
+	c15ringIdentity(c)
 }
 
 // hashDerivation renders the argument of a hashFunc call: want []byte(nodeRepr + strconv.Itoa(i)).
